@@ -1568,6 +1568,9 @@ func (enc *VP8Encoder) recordAllTokens(stats *ProbaStats) {
 
 		if info.Skip {
 			enc.numSkip++
+			// Record the skipped macroblock's empty token range (see
+			// EmitTokensPartitioned).
+			enc.tokens.MarkMBStart(it.MBIdx)
 			enc.topNz[it.X] = 0
 			enc.leftNz = 0
 			if info.MBType == 0 {
